@@ -85,6 +85,11 @@ def fingerprint_url(url, unsplit=True, strip_suffix=False, platform_aware=False)
         platform_aware=platform_aware,
         lowercase=True,
     )
+
+    # NOTE: normalize_url gives its argument back when it cannot parse it
+    if not isinstance(splitted, SplitResult):
+        return splitted
+
     _, netloc, path, query, fragment = splitted
 
     user, password, hostname, port = (
